@@ -87,19 +87,20 @@ class SrcCol:
 
 
 class El:
-    def __init__(self, obj, kind, exp, label=None, src=None):
+    def __init__(self, obj, kind, exp, label=None, src=None, nk=None):
         self.obj, self.kind, self.exp, self.label, self.src = obj, kind, exp, label, src
+        self.nk = nk or kind  # naming kind: a repeated element is named like the element it repeats
 
     @property
     def bare(self):
-        return self.kind in ("col", "label", "cast", "tcoerce", "dup")
+        return self.nk in ("col", "label", "cast", "tcoerce")
 
     def names(self):
         s = set()
         if self.label is not None:
             s.add(self.label)
         # a unary minus over a column is named by (and registered in the result map through) that column
-        if self.src is not None and self.kind in ("col", "label", "cast", "tcoerce", "neg"):
+        if self.src is not None and self.nk in ("col", "label", "cast", "tcoerce", "neg"):
             s.add(self.src.name)
             if self.src.tname:
                 s.add(f"{self.src.tname}_{self.src.name}")
@@ -181,7 +182,7 @@ class Gen:
         if k == "neg":
             return El(-sc.obj, k, lambda b, e=sc.exp: -e(b), None, sc)
         p = r.choice(prev)
-        return El(p.obj, "dup", p.exp, p.label, p.src)
+        return El(p.obj, "dup", p.exp, p.label, p.src, nk=p.nk)
 
     def marker(self, sc_id, K0):
         """position 0: id + K0, from which the row number is decoded"""
@@ -266,7 +267,7 @@ def shadowed(s, carriers, els):
     for j, e in enumerate(els):
         if j in carriers:
             continue
-        nat = {"func": "abs"}.get(e.kind) or (e.label if e.label is not None else (e.src.name if e.src is not None and e.kind in ("col", "cast", "tcoerce", "neg") else None))
+        nat = {"func": "abs"}.get(e.nk) or (e.label if e.label is not None else (e.src.name if e.src is not None and e.nk in ("col", "cast", "tcoerce", "neg") else None))
         if nat == base:
             return True
     return False
